@@ -19,7 +19,7 @@ THEOREMS = [
     "C11_de_morgan", "C11_flip_is_complement", "C11_shift_total", "C11_shift_count_out_of_range",
     "C11_shift_zero_is_identity",
     "C11_concat_associates", "C11_concat_unit", "C11_int_add_mul_commute", "C11_int_add_mul_associate",
-    "C11_int_sub_self_add_zero",
+    "C11_int_sub_self_add_zero", "C11_mod_sign_and_bound", "C11_int_order",
 ]
 
 BINOPS = ["+", "-", "*", "/", "%", "&", "|", "<", ">", "<=", ">=", "==", "!=", "<<", ">>"]
